@@ -1672,4 +1672,81 @@ theorem mline_entity' (m : Mapping) (A : List Tag) (ns : NS) (vs : List MVertex)
   rw [fastLoad_payload m A _ ns hA (fun t ht => hm _ (exportMLine_codes vs t ht))]
   exact ⟨rfl, mline_roundtrip' _ vs (fun t ht => hfree t (fastLoad_unp_mem m A ns t ht)) h⟩
 
+/-! ### MTEXT columns (embedded object), LTYPE pattern -/
+
+theorem col_heights (hs : List Nat) (hd hi hw : Bool) : ∀ (c : MCols) (d i : Option P3) (w : Option Nat),
+    (hs.map (tagD 46)).foldl (colStep hd hi hw) ⟨c, d, i, w⟩ = ⟨{ c with heights := c.heights ++ hs }, d, i, w⟩ := by
+  induction hs with
+  | nil => intros; simp
+  | cons x xs ih => intro c d i w; simp [colStep, ih]
+
+theorem cols_roundtrip' (recount : Nat → Nat → Nat → Int) (hasDir hasIns hasW : Bool) (dir ins : P3) (w : Nat) (c : MCols) :
+    loadCols recount hasDir hasIns hasW (exportCols dir ins w c) =
+      ⟨canonCols recount c, if hasDir then none else some dir, if hasIns then none else some ins,
+       if hasW then none else some w⟩ := by
+  obtain ⟨ctype, count, autoH, revFlow, definedH, width, gutter, totalW, totalH, heights⟩ := c
+  unfold loadCols exportCols canonCols
+  simp only [List.foldl_append, List.foldl_cons, List.foldl_nil]
+  have pre : ∀ cnt : Int, colStep hasDir hasIns hasW (colStep hasDir hasIns hasW (colStep hasDir hasIns hasW
+      (colStep hasDir hasIns hasW (colStep hasDir hasIns hasW (colStep hasDir hasIns hasW (colStep hasDir hasIns hasW
+      (colStep hasDir hasIns hasW (colStep hasDir hasIns hasW (colStep hasDir hasIns hasW (colStep hasDir hasIns hasW
+      (colStep hasDir hasIns hasW (colStep hasDir hasIns hasW ⟨⟨1, 1, false, false, 0, 0, 0, 0, 0, []⟩, none, none, none⟩
+        (tagI 70 1)) (tagP3 10 dir)) (tagP3 11 ins)) (tagD 40 w)) (tagD 41 definedH)) (tagD 42 totalW)) (tagD 43 totalH))
+        (tagI 71 ctype)) (tagI 72 cnt)) (tagD 44 width)) (tagD 45 gutter)) (tagI 73 (boolInt autoH)))
+        (tagI 74 (boolInt revFlow)) =
+      ⟨⟨ctype, cnt, autoH, revFlow, definedH, width, gutter, totalW, totalH, []⟩,
+        if hasDir then none else some dir, if hasIns then none else some ins, if hasW then none else some w⟩ := by
+    intro cnt
+    cases hasDir <;> cases hasIns <;> cases hasW <;> cases autoH <;> cases revFlow <;>
+      simp [colStep, truthVal, boolInt, tagI, tagD, tagP3, intOf, dblOf, p3Of]
+  rw [pre, col_heights]
+  simp [MCols.dynAuto]
+
+theorem ltype_pattern' (m : Mapping) (A P : List Tag) (ns : NS) (hA : A ≠ [])
+    (hP : ∀ t ∈ P, unmapped m t.code = true) (hAu : (fastLoad m A ns).2 = []) :
+    loadLtype m (A ++ exportLtypePattern P) ns = ((fastLoad m A ns).1, P) := by
+  unfold loadLtype exportLtypePattern
+  rw [fastLoad_payload m A P ns hA hP, hAu]; simp
+
+theorem lenTag_code (sumAbs : List Tag → Nat) (tags : List Tag) : (lenTag sumAbs tags).code = 40 := by
+  unfold lenTag
+  cases hf : tags.find? (·.code == 40) with
+  | none => rfl
+  | some t => simpa using List.find?_some hf
+
+theorem ltypeR12_idem (sumAbs : List Tag → Nat) (P : List Tag) :
+    ltypeR12 sumAbs (ltypeR12 sumAbs P) = ltypeR12 sumAbs P := by
+  have hc := lenTag_code sumAbs P
+  have hf49 : (ltypeR12 sumAbs P).filter (·.code == 49) = P.filter (·.code == 49) := by
+    unfold ltypeR12
+    simp [List.filter_cons, hc, tagI, tagN, List.filter_filter]
+  have hlen : lenTag sumAbs (ltypeR12 sumAbs P) = lenTag sumAbs P := by
+    have : (ltypeR12 sumAbs P).find? (·.code == 40) = some (lenTag sumAbs P) := by
+      unfold ltypeR12
+      simp [List.find?_cons, hc, tagI, tagN]
+    unfold lenTag at this ⊢
+    simp only [this]
+  have : ltypeR12 sumAbs (ltypeR12 sumAbs P) =
+      tagI 72 65 :: tagN 73 ((ltypeR12 sumAbs P).filter (·.code == 49)).length :: lenTag sumAbs (ltypeR12 sumAbs P) ::
+        (ltypeR12 sumAbs P).filter (·.code == 49) := rfl
+  rw [this, hf49, hlen]
+  rfl
+
+theorem ltypeR12_simple (sumAbs : List Tag → Nat) (n : Int) (L : Nat) (es : List Nat) :
+    ltypeR12 sumAbs ([tagI 72 65, tagI 73 n, tagD 40 L] ++ es.flatMap (fun e => [tagD 49 e, tagI 74 0])) =
+      [tagI 72 65, tagN 73 es.length, tagD 40 L] ++ es.map (tagD 49) := by
+  have hf : (es.flatMap (fun e => [tagD 49 e, tagI 74 0])).filter (·.code == 49) = es.map (tagD 49) := by
+    induction es with
+    | nil => rfl
+    | cons e r ih =>
+      simp only [List.flatMap_cons, List.filter_append, ih, List.map_cons]
+      rfl
+  have h49 : ([tagI 72 65, tagI 73 n, tagD 40 L] ++ es.flatMap (fun e => [tagD 49 e, tagI 74 0])).filter (·.code == 49) =
+      es.map (tagD 49) := by
+    rw [List.filter_append, hf]; rfl
+  have hl : lenTag sumAbs ([tagI 72 65, tagI 73 n, tagD 40 L] ++ es.flatMap (fun e => [tagD 49 e, tagI 74 0])) = tagD 40 L := by
+    unfold lenTag; rfl
+  unfold ltypeR12
+  rw [h49, hl]; simp
+
 end EzdxfVerif.Payload
